@@ -159,7 +159,7 @@ class Search:
     def explore(self, scen, policies=("FIFO",), bound=1, cap=None):
         self.explore_block([scen], policies, bound, cap)
 
-    def explore_block(self, scens, policies=("FIFO",), bound=1, cap=None, window=None):
+    def explore_block(self, scens, policies=("FIFO",), bound=1, cap=None, window=None, demote=False):
         """Level-by-level exploration of several scenarios at once (one pool wave per deviation level)."""
         # frontier: (scenario index, policy) -> list of (schedule, expected widths prefix)
         fr = {(si, pol): [({}, None)] for si in range(len(scens)) for pol in policies}
@@ -214,12 +214,17 @@ class Search:
                             s2 = dict(sch)
                             s2[i] = alt
                             nxt[k].append((s2, w[: i + 1]))
+                        if demote and w[i] > 1:
+                            # the "long preemption" deviation: the default actor is descheduled until nothing else can run
+                            s2 = dict(sch)
+                            s2[i] = "D"
+                            nxt[k].append((s2, w[: i + 1]))
             for k in fr:
                 if k not in stopped and fr[k]:
                     done[k] = d
                 fr[k] = nxt[k]
         for k in fr:
-            self.completed.setdefault(scens[k[0]]["name"], {})[k[1] + (f"/window{window}" if window else "")] = done[k]
+            self.completed.setdefault(scens[k[0]]["name"], {})[k[1] + (f"/window{window}" if window else "") + ("/demote" if demote else "")] = done[k]
 
     def explore_kills(self, scen, policy="FIFO", base_schedules=({},), restart_bound=0):
         """Kill the first scheduler process before every scheduling step of each base schedule, then run the restart
